@@ -41,7 +41,7 @@ impl walrus::CustomSection for RootSection {
 
 /// GC with one function kept alive only by a custom-section root: it and
 /// everything it refers to must survive, unchanged.
-fn rooted_mode(input: &Input, out: &mut CaseOut) -> Result<(), Failure> {
+fn rooted_mode(ctx: &Ctx, input: &Input, out: &mut CaseOut) -> Result<(), Failure> {
     use crate::decode::decode;
     let (bytes, origin, pick) = match input {
         Input::Choices { gen, bytes } => {
@@ -85,6 +85,16 @@ fn rooted_mode(input: &Input, out: &mut CaseOut) -> Result<(), Failure> {
         )
     })?;
     if let Err(e) = crate::optable::validate_walrus(&emitted) {
+        if e.contains("undeclared function reference") && super::c01::passive_only_declaration(&bytes) {
+            // the recorded finding, reached through this mode
+            return ctx.known_or(
+                out,
+                Failure::new(
+                    "gc-output-invalid:undeclared function reference:only-declaration-was-an-element-segment-the-pass-removes",
+                    format!("function {} rooted by a custom section; output invalid: {} [{}]", target, e, origin),
+                ),
+            );
+        }
         return Err(Failure::new(
             format!("custom-root:invalid-output:{}", super::c02::normalise_msg(&e)),
             format!("function {} rooted by a custom section; output invalid: {} [{}]", target, e, origin),
@@ -128,7 +138,7 @@ fn rooted_mode(input: &Input, out: &mut CaseOut) -> Result<(), Failure> {
 /// An active data segment added through the public API (not registered with
 /// its memory, which nothing documents as required) is a GC root like the
 /// parsed ones: edit>emit and edit>gc>emit must behave alike.
-fn added_data_mode(input: &Input, out: &mut CaseOut) -> Result<(), Failure> {
+fn added_data_mode(ctx: &Ctx, input: &Input, out: &mut CaseOut) -> Result<(), Failure> {
     use walrus::*;
     let (bytes, origin, sb) = match input {
         Input::Choices { gen, bytes } => {
@@ -201,6 +211,9 @@ fn added_data_mode(input: &Input, out: &mut CaseOut) -> Result<(), Failure> {
     let (sa, sbb) = match (crate::exec::observe(&a, &script, host_seed, true), crate::exec::observe(&b, &script, host_seed, true)) {
         (Ok(x), Ok(y)) => (x, y),
         (Ok(_), Err(e)) if !e.starts_with("interpreter-panic") => {
+            if e.contains("undeclared function reference") && super::c01::passive_only_declaration(&a) {
+                return ctx.known_or(out, Failure::new("gc-output-invalid:undeclared function reference:only-declaration-was-an-element-segment-the-pass-removes", format!("{} [{}]", e, origin)));
+            }
             return Err(Failure::new("api-added-segment:gc-output-not-loadable", format!("{} [{}]", e, origin)));
         }
         _ => return Ok(()),
@@ -218,10 +231,99 @@ fn added_data_mode(input: &Input, out: &mut CaseOut) -> Result<(), Failure> {
     Ok(())
 }
 
+/// The module stays usable after the pass: every signature of the input can
+/// be added (again) and resolves to a live type, and the module still emits
+/// a valid binary.
+fn api_after_gc_mode(ctx: &Ctx, input: &Input, out: &mut CaseOut) -> Result<(), Failure> {
+    use crate::ops::VT;
+    use walrus::*;
+    let p = match input {
+        Input::Choices { gen, bytes } => {
+            let rest: Vec<u8> = bytes.iter().skip(64).copied().collect();
+            prepare(&Input::Choices { gen: gen.clone(), bytes: rest }).unwrap()
+        }
+        Input::Wasm { .. } => match prepare(input) {
+            Some(p) => p,
+            None => return Ok(()),
+        },
+        _ => return Ok(()),
+    };
+    if crate::optable::validate_walrus(&p.bytes).is_err() {
+        return Ok(());
+    }
+    let da = match crate::decode::decode(&p.bytes) {
+        Ok(d) => d,
+        Err(_) => return Ok(()),
+    };
+    let cfg = crate::wal::Cfg::plain().to_config();
+    let mut m = match crate::wal::parse(&p.bytes, &cfg) {
+        Ok(Ok(m)) => m,
+        _ => return Ok(()),
+    };
+    if crate::wal::gc(&mut m).is_err() {
+        return Ok(());
+    }
+    let vt = |t: &VT| match t {
+        VT::I32 => ValType::I32,
+        VT::I64 => ValType::I64,
+        VT::F32 => ValType::F32,
+        VT::F64 => ValType::F64,
+        VT::V128 => ValType::V128,
+        VT::FuncRef => ValType::Ref(RefType::Funcref),
+        VT::ExternRef | VT::Other(_) => ValType::Ref(RefType::Externref),
+    };
+    if da.types.iter().any(|t| t.params.iter().chain(t.results.iter()).any(|x| matches!(x, VT::Other(_)))) {
+        return Ok(());
+    }
+    let sigs: Vec<(Vec<ValType>, Vec<ValType>)> = da.types.iter().map(|t| (t.params.iter().map(vt).collect(), t.results.iter().map(vt).collect())).collect();
+    let r = guard("api after gc", || {
+        for (ps, rs) in &sigs {
+            let id = m.types.add(ps, rs);
+            let t = m.types.get(id);
+            if t.params() != ps.as_slice() || t.results() != rs.as_slice() {
+                return Some(format!("types.add({:?}, {:?}) after GC returned an id that resolves to {:?} -> {:?}", ps, rs, t.params(), t.results()));
+            }
+        }
+        None
+    });
+    match r {
+        Err(f) => {
+            return Err(Failure::new(
+                format!("api-after-gc:{}", f.signature),
+                format!("adding the input's signatures again after the GC pass panicked: {} [{}]", f.detail, p.origin),
+            ))
+        }
+        Ok(Some(msg)) => return Err(Failure::new("api-after-gc:wrong-type", format!("{} [{}]", msg, p.origin))),
+        Ok(None) => {}
+    }
+    match crate::wal::emit(&mut m) {
+        Ok(b) => {
+            if let Err(e) = crate::optable::validate_walrus(&b) {
+                if e.contains("undeclared function reference") && super::c01::passive_only_declaration(&p.bytes) {
+                    return ctx.known_or(out, Failure::new("gc-output-invalid:undeclared function reference:only-declaration-was-an-element-segment-the-pass-removes", format!("{} [{}]", e, p.origin)));
+                }
+                return Err(Failure::new(
+                    format!("api-after-gc:invalid-output:{}", super::c02::normalise_msg(&e)),
+                    format!("after GC and re-adding the input's signatures the output is invalid: {} [{}]", e, p.origin),
+                ));
+            }
+        }
+        Err(f) => {
+            return Err(Failure::new(
+                format!("api-after-gc:{}", f.signature),
+                format!("after GC and re-adding the input's signatures emit panicked: {} [{}]", f.detail, p.origin),
+            ))
+        }
+    }
+    out.label("mode:api-after-gc");
+    Ok(())
+}
+
 pub fn check(ctx: &Ctx, input: &Input) -> CaseResult {
     let mut r = super::c01::diff_case(ctx, input, true)?;
-    rooted_mode(input, &mut r)?;
-    added_data_mode(input, &mut r)?;
+    rooted_mode(ctx, input, &mut r)?;
+    added_data_mode(ctx, input, &mut r)?;
+    api_after_gc_mode(ctx, input, &mut r)?;
     // C06's non-triviality additionally needs GC to have removed something
     if !r.labels.iter().any(|l| l == "gc-removed-something") {
         r.nontrivial = false;
